@@ -124,7 +124,9 @@ def judge(op, impl, model, spec):
         ln = int(F.ann(op, "len"))
         res = [t for t in toks if t not in ("P", "-")]
         if ln > maxlen:
-            good = res[:1] == ["err:len"]
+            # refused, and refused again on every later call (the reader stays on the complete prefix: async_oversize_rejected);
+            # it neither skips the frame nor reports an end while the source still holds its payload
+            good = res[:1] == ["err:len"] and all(r == "err:len" for r in res)
         else:
             exp = F.ann(op, "exp").split("/")
             good = res[:len(exp)] == exp
